@@ -54,6 +54,9 @@ type G struct {
 	emit     func(op string, args ...string)
 }
 
+// mirrorOps: ops that are emitted a second time under another name (answered by the generated code on the Lean side)
+var mirrorOps = map[string]string{}
+
 var gens = map[string]func(g *G){}
 var execs = map[string]func(a []string) string{}
 
@@ -298,7 +301,14 @@ func main() {
 		ow = open(*opsOut)
 		defer ow.Flush()
 		g := &G{r: &rng{s: *seed*0x2545F4914F6CDD1D + 0x1234567}, thorough: *tier == "thorough"}
-		g.emit = func(op string, args ...string) { do(op, args) }
+		g.emit = func(op string, args ...string) {
+			do(op, args)
+			// the public Bech32 entry points are also answered by the GENERATED Encode / Decode (Iota/Gen/Bech32.lean,
+			// namespace api) on the Lean side: same arguments, same reply format
+			if m, ok := mirrorOps[op]; ok {
+				do(m, args)
+			}
+		}
 		gen(g)
 	}
 
